@@ -35,7 +35,7 @@ Definition cleanup_repaired (chrs mo rg:list N) (dropped_proc:bool) : list fname
 Definition gen_cfg (setup_:list N) (mo rg:list N) (rgfile genedb grouped keep fc fp fcl:bool) : cfg :=
   let chrs_ := map N.of_nat (seq 0 (length mo)) in
   mkcfg setup_ rg rgfile chrs_ mo (gen_creation genedb grouped) (gen_dumps genedb grouped) (gen_merges genedb grouped) true keep
-        (if keep then [] else if fcl then cleanup_repaired chrs_ mo rg fp else cleanup_current mo rg fp) fc fp.
+        (if keep then [] else if fcl then cleanup_repaired chrs_ mo rg fp else cleanup_current mo rg fp) fc fp false.
 
 (* ------------------------------------------------------------------ verdicts at every crash point *)
 Definition outcomes (cf:cfg) : list (nat * outcome * outcome) :=
@@ -90,6 +90,16 @@ Proof. vm_cast_no_check (eq_refl true). Qed.
 Lemma family_repaired_all_identical : forallb all_identical (family true true true) = true.
 Proof. vm_cast_no_check (eq_refl true). Qed.
 (* each repair is needed: with any one of them missing some crash point of the family does not resume to identical outputs *)
+(* --read_assignments <saves of a --keep_tmp run> (no read groups from a file there: that combination aborts, C15) *)
+Definition as_reuse (cf:cfg) : cfg :=
+  mkcfg (setup cf) [] false (chrs cf) (merge_order cf) (creation cf) (dumps cf) (merges cf) (has_models cf) false [] (fix_close cf) (fix_proc cf) true.
+Definition reuse_family (fc fp:bool) : list cfg := map as_reuse (filter (fun cf => negb (keep_tmp cf) && negb (rg_file cf)) (family fc fp true)).
+Lemma reuse_family_repaired_all_identical : forallb all_identical (reuse_family true true) = true.
+Proof. vm_cast_no_check (eq_refl true). Qed.
+(* without dropping the _processed locks (which sit next to the SUPPLIED prefix) the merge window is fatal in this mode too *)
+Lemma reuse_family_window_fails : forallb window_fails (reuse_family true false) = true /\ forallb all_identical (reuse_family true false) = false.
+Proof. split; [vm_cast_no_check (eq_refl true)|vm_cast_no_check (eq_refl false)]. Qed.
+
 Lemma family_each_fix_needed :
   forallb all_identical (family false true true) = false /\ forallb all_identical (family true false true) = false /\
   forallb all_identical (family true true false) = false.
@@ -112,10 +122,11 @@ Theorem resume_merge_refuted : forall cf, In cf (family false false false) ->
 Proof. intros cf I k after Hk W. pose proof (forallb_In _ _ _ family_current_window_fails I) as H. unfold window_fails in H.
   pose proof (oc_all_spec _ _ H k after Hk) as E. cbn beta in E. unfold in_merge_window in W. rewrite W in E. apply outcome_eqb_spec, E. Qed.
 
-Theorem resume_any_crash_point_small : forall cf, In cf (family true true true) ->
+Theorem resume_any_crash_point_small : forall cf, In cf (family true true true ++ reuse_family true true) ->
   forall k after, (1 <= k <= n_mutations cf)%nat -> outcome_of cf k after = Identical.
-Proof. intros cf I k after Hk. pose proof (forallb_In _ _ _ family_repaired_all_identical I) as H.
-  apply outcome_eqb_spec. exact (oc_all_spec _ _ H k after Hk). Qed.
+Proof. intros cf I k after Hk. apply outcome_eqb_spec. apply in_app_or in I. destruct I as [I|I].
+  - exact (oc_all_spec _ _ (forallb_In _ _ _ family_repaired_all_identical I) k after Hk).
+  - exact (oc_all_spec _ _ (forallb_In _ _ _ reuse_family_repaired_all_identical I) k after Hk). Qed.
 
 
 (* ------------------------------------------------------------------ the two levels agree *)
